@@ -659,13 +659,62 @@ def r4(fx, chk):
                     "BoxHeader::read does not decode the two header forms of ISO/IEC 14496-12 4.2: %s" % why, site_of(hr[0]))
     sl = [f for f in fx.fns.values() if f["name"] == "size_of_length" and f["kind"] == "Fn"]
     if chk.anchor("R4", "size_of_length", sl):
-        t = tables.match_table(fx, tables.find_match(sl[0]))
-        got = [(p[1], p[2], r[1]) for p, r, _ in t if p[0] == "range" and r[0] == "int"]
-        wild = [r[1] for p, r, _ in t if p[0] in ("wild", "bind") and r[0] == "int"]
-        chk.require(got == [(0, 0x7F, 1), (0x80, 0x3FFF, 2), (0x4000, 0x1FFFFF, 3)] and wild == [4], "R4", "desc-length", "7-bit groups: <=0x7F:1, <=0x3FFF:2, <=0x1FFFFF:3, else 4",
-                    "descriptor length thresholds are %s / default %s; 14496-1 8.3.3 uses 7 bits per length byte" % (got, wild), site_of(sl[0]))
+        tt = tables.threshold_table(fx, sl[0])
+        if tt is None:
+            # not written as a threshold table (range arms or an if-chain of comparisons with constants): outside the vocabulary
+            chk.analysed.setdefault("not_compared", []).append("size_of_length")
+        else:
+            chk.require(tt == [(0x7F, 1), (0x3FFF, 2), (0x1FFFFF, 3), (None, 4)], "R4", "desc-length", "7-bit groups: <=0x7F:1, <=0x3FFF:2, <=0x1FFFFF:3, else 4",
+                        "descriptor length thresholds are %s; 14496-1 8.3.3 uses 7 bits per length byte" % tt, site_of(sl[0]))
     rd = [f for f in fx.fns.values() if f["name"] == "read_desc" and f["kind"] == "Fn"]
     if chk.anchor("R4", "read_desc", rd):
-        d = hirq.dump(hirq.body_root(rd[0]))
-        ok = "for _ in Range{start: 0, end: 4}" in d and "(size Shl 7)" in d and "BitAnd 127" in d and "BitAnd 128" in d and "break" in d
-        chk.require(ok, "R4", "desc-read", "up to 4 length bytes, 7 bits each, continuation bit 0x80", "read_desc does not decode the variable-length size as up to four 7-bit groups with a continuation bit", site_of(rd[0]))
+        # features of the variable-length size decoder, read off the MIR (spelling, loop form and named constants do not matter):
+        # inside one loop the accumulator is shifted left by 7, the byte is masked with 0x7F, the continuation bit 0x80 is
+        # tested, and the loop runs at most four times
+        from mir import body_of, op_const, op_place
+        import loops as LP
+        body = body_of(rd[0])
+        feats = {"shl7": False, "mask7f": False, "test80": False, "bound4": False}
+        ls = LP.inventory(fx, rd[0]["id"])
+        for L in ls:
+            f = {"shl7": False, "mask7f": False, "test80": False}
+            for b_ in L.blocks:
+                for st_ in body.stmts(b_):
+                    if st_["k"] == "assign" and st_["rv"]["k"] in ("bin", "checked"):
+                        op_, a_, b2_ = st_["rv"].get("op"), op_const(st_["rv"]["a"]), op_const(st_["rv"]["b"])
+                        if op_ in ("Shl", "ShlUnchecked") and b2_ == 7:
+                            f["shl7"] = True
+                        if op_ == "BitAnd" and 0x7F in (a_, b2_):
+                            f["mask7f"] = True
+                        if op_ == "BitAnd" and 0x80 in (a_, b2_):
+                            f["test80"] = True
+            reads = any(t_["callee"].get("trait") in ("byteorder::io::ReadBytesExt", "std::io::Read") for _b, t_ in LP.calls_in(body, L.blocks))
+            if not reads:
+                continue          # not the loop that reads the length bytes
+            feats.update(f)
+            feats["loop"] = True
+            # at most four iterations: a `0..4` range, or a counter initialised to a constant <= 4 and decremented in the loop
+            consts = set()
+            for b_ in range(body.n):
+                for st_ in body.stmts(b_):
+                    if st_["k"] != "assign":
+                        continue
+                    rv_ = st_["rv"]
+                    if rv_["k"] == "agg" and "Range" in str(rv_.get("adt") or rv_.get("def") or rv_.get("ak") or ""):
+                        vals = [op_const(o) for o in rv_.get("ops", [])]
+                        if len(vals) == 2 and vals[0] == 0 and vals[1] is not None:
+                            consts.add(vals[1])
+                    if not st_["place"]["p"] and rv_["k"] == "use" and op_const(rv_["a"]) is not None and b_ not in L.blocks:
+                        l_ = st_["place"]["l"]
+                        for bb_ in L.blocks:
+                            for s2 in body.stmts(bb_):
+                                if s2["k"] == "assign" and s2["rv"]["k"] in ("bin", "checked") and s2["rv"].get("op") in ("Sub", "SubWithOverflow") and op_const(s2["rv"]["b"]) == 1:
+                                    pl_ = op_place(s2["rv"]["a"])
+                                    if pl_ is not None and pl_["l"] == l_:
+                                        consts.add(op_const(rv_["a"]))
+            feats["bound4"] = bool(consts) and max(consts) <= 4
+        if not feats.pop("loop", False):
+            chk.analysed.setdefault("not_compared", []).append("read_desc")
+        else:
+            chk.require(all(feats.values()), "R4", "desc-read", "up to 4 length bytes, 7 bits each, continuation bit 0x80",
+                        "read_desc does not decode the variable-length size as up to four 7-bit groups with a continuation bit (missing: %s)" % ", ".join(k for k, v in feats.items() if not v), site_of(rd[0]))
